@@ -923,6 +923,18 @@ def main(argv):
     if '--sympler' in argv: SYMPLER = argv[argv.index('--sympler') + 1]
     work = keep or ('/tmp/corr_dyn_%d_%d' % (seed, os.getpid()))
     os.makedirs(work, exist_ok=True)
+    # the hooked binary may be relinked by a concurrent build: work on a private snapshot of it
+    import time
+    snap = os.path.join(work, 'sympler.snapshot')
+    for attempt in range(60):
+        try:
+            shutil.copy2(SYMPLER, snap)
+            if subprocess.run([snap, '--help'], stdout=subprocess.DEVNULL, stderr=subprocess.DEVNULL, timeout=60).returncode in (0, 1):
+                break
+        except (OSError, subprocess.SubprocessError):
+            pass
+        time.sleep(5)
+    SYMPLER = snap
     rng = random.Random(seed)
     summ = dict(seed=seed, cases=0, compared_steps=0, exact_steps=0, approx_steps=0, skipped=dict(), modules=dict(), lambdas=dict(),
                 frozen_counts=dict(), flavours=dict(), species_counts=dict(), swapped_force_species=0, list_gt_force_cutoff=0,
@@ -1005,6 +1017,8 @@ def main(argv):
                 summ['violations'].append(dict(case=case, oracle=name, detail=res, dir=d, model_input=to_model(gs)))
         if not keep or (not first and not any(v['case'] == case for v in summ['violations'])):
             shutil.rmtree(d, ignore_errors=True)
+    try: os.remove(snap)
+    except OSError: pass
     if not keep: shutil.rmtree(work, ignore_errors=True)
     summ['ok'] = not summ['disagreements'] and not summ['violations']
     print(json.dumps(summ, indent=1, default=str))
